@@ -624,6 +624,7 @@ Token *tokenize(File *file) {
     // UTF-32 character literal
     if (startswith(p, "U'")) {
       cur = cur->next = read_char_literal(p, p + 1, ty_uint);
+      cur->val &= 0xffffffff;
       p += cur->len;
       continue;
     }
